@@ -30,7 +30,7 @@ def _case(draw, nmax):
     n = draw(st.one_of(st.integers(1, 6), st.integers(2, nmax)))
     k = draw(st.one_of(st.integers(1, max(1, n - 1)), st.integers(1, n + 2)))
     heights = draw(st.lists(st.one_of(st.sampled_from([-1.0, 0.0, 0.5, 1.0, 10.0, 999.0, 1000.0, 2000.0]), st.floats(0.001, 1500.0)), min_size=1, max_size=3))
-    case = {"mode": mode, "n": n, "k": k, "heights": heights, "k_pdf": draw(st.one_of(st.none(), st.integers(1, max(1, min(k, n - 1)))))}
+    case = {"mode": mode, "n": n, "k": k, "heights": heights, "k_first": draw(st.one_of(st.none(), st.none(), st.integers(1, n + 2))), "k_pdf": draw(st.one_of(st.none(), st.integers(1, max(1, min(k, n - 1)))))}
     if mode == "pre":
         W, wm = draw(gen.weight_matrix(n))
         if draw(st.integers(0, 5)) == 0:
@@ -96,6 +96,13 @@ def check_case(case):
         args = (fn, False, None)
         if not all(math.isfinite(v) and v >= 0 for row in D for v in row):
             return Outcome.discard("not_finite_nonneg")
+    reused = False
+    if case.get("k_first"):
+        # arcs were created before with another k and destroyed: the second creation must be as exact as the first
+        # (the sub-graph's density BOUND is a running maximum and is not claimed for a re-used sub-graph: skipped below)
+        libcall(sg.create_arcs, case["k_first"], *args)
+        libcall(sg.destroy_arcs)
+        reused = True
     maxd = libcall(sg.create_arcs, k, *args)
     kk = min(k, n - 1)
     cl = ["mode_" + case["mode"], "k>n-1" if k > n - 1 else "k<=n-1"]
@@ -125,6 +132,9 @@ def check_case(case):
         require(maxd[l] == exp, "arcs:per_rank_maxima", lambda: "rank %d: returned %r, true maximum %r" % (l, maxd[l], exp))
     bound = max(all_listed) if all_listed else 0.0
     exp_bound = bound if bound >= 0.00001 else 1
+    if reused:
+        cl.append("arcs_recreated_after_destroy")
+        return Outcome.ok(nontrivial=tie_at_k, classes=cl)
     require(float(sg.density) == exp_bound, "arcs:density_bound", lambda: "subgraph.density %r expected %r (max listed distance %r)" % (sg.density, exp_bound, bound))
 
     distinct_dens = 0
